@@ -107,6 +107,23 @@ else:
                 lp = f"{root}/demo-{pid}-{os.path.basename(sp)}"
                 open(lp, "w").write(txt)
                 cmd = cmd.replace(sp, lp)
+        # standalone demo projects (own Cargo.toml with path deps on the agent's worktree): run a
+        # copy whose paths point at the scratch worktree instead
+        if os.path.exists(f"{demo_dir}/Cargo.toml"):
+            local_demo = f"{root}/demo-{pid}"
+            shutil.rmtree(local_demo, ignore_errors=True)
+            shutil.copytree(demo_dir, local_demo, ignore=shutil.ignore_patterns("target"))
+            for dp, _, fs in os.walk(local_demo):
+                for fn in fs:
+                    if fn.endswith((".toml", ".sh", ".rs", ".txt", ".md", ".lock")):
+                        pth = os.path.join(dp, fn)
+                        try:
+                            t = open(pth).read()
+                        except Exception:
+                            continue
+                        if agent_wt in t or demo_dir in t:
+                            open(pth, "w").write(t.replace(demo_dir, local_demo).replace(agent_wt, repo))
+            cmd = cmd.replace(demo_dir, local_demo)
         conf["demo"]["cmd_rerun"] = cmd
 
         def verdict(out):
@@ -114,9 +131,45 @@ else:
             good = "test result: ok" in out or "PASS" in out
             return "fails" if bad else ("passes" if good else "unknown")
 
-        rc1, out1, s1 = sh(f"bash -c {json.dumps(cmd)}", cwd=repo, timeout=5400)
+        # robust mode: a single test file in demo/ → copy it into <touched crate>/tests/ and run it
+        # with `cargo test --test`; this does not depend on the free-form demo_cmd text
+        smart = None
+        rs_files = [f for f in os.listdir(demo_dir) if f.endswith(".rs")] if os.path.isdir(demo_dir) else []
+        if not os.path.exists(f"{demo_dir}/Cargo.toml") and rs_files:
+            # choose the crate named in the command if any, else the first touched crate
+            crate_dir, pkg = crates[0], (pkgs[0] if pkgs else None)
+            mm = re.search(r"-p\s+([\w\-]+)", demo_cmd)
+            if mm:
+                for c2 in os.listdir(repo):
+                    tp = f"{repo}/{c2}/Cargo.toml"
+                    if os.path.exists(tp) and re.search(r'name\s*=\s*"%s"' % re.escape(mm.group(1)), open(tp).read()):
+                        crate_dir, pkg = c2, mm.group(1)
+                if mm.group(1) == "hydro_deploy_integration":
+                    crate_dir, pkg = "hydro_deploy/hydro_deploy_integration", mm.group(1)
+            tests = [f[:-3] for f in rs_files]
+            flags_env = ""
+            blob = demo_cmd + "".join(open(f"{demo_dir}/{f}").read() for f in rs_files)
+            if "hydro_project_hydro_verif" in blob or "verif_new" in blob or "verif_point" in blob:
+                flags_env = 'RUSTFLAGS="--cfg hydro_project_hydro_verif" CARGO_TARGET_DIR=%s/repo-target-verif ' % root
+            smart = (crate_dir, pkg, tests, flags_env)
+
+        def run_demo():
+            if smart:
+                crate_dir, pkg, tests, flags_env = smart
+                os.makedirs(f"{repo}/{crate_dir}/tests", exist_ok=True)
+                for t in tests:
+                    shutil.copy(f"{demo_dir}/{t}.rs", f"{repo}/{crate_dir}/tests/{t}.rs")
+                c = f"{flags_env}cargo test -p {pkg} --offline " + " ".join(f"--test {t}" for t in tests)
+                r = sh(c, cwd=repo, timeout=5400)
+                for t in tests:
+                    os.remove(f"{repo}/{crate_dir}/tests/{t}.rs")
+                conf["demo"]["cmd_rerun"] = c
+                return r
+            return sh(f"bash -c {json.dumps(cmd)}", cwd=repo, timeout=5400)
+
+        rc1, out1, s1 = run_demo()
         sh(f"git apply -R {patch}", cwd=repo)
-        rc2, out2, s2 = sh(f"bash -c {json.dumps(cmd)}", cwd=repo, timeout=5400)
+        rc2, out2, s2 = run_demo()
         sh(f"git apply {patch}", cwd=repo)
         sh("git clean -fdq -e target", cwd=repo)
         conf["demo"].update({"with_patch": verdict(out1), "without_patch": verdict(out2), "with_tail": out1[-1200:], "without_tail": out2[-500:]})
